@@ -337,7 +337,7 @@ Definition in_domain (c : call) : bool :=
   | FSearch => bounds2_ok c
   | FMismatch =>
       bounds2_ok c &&
-      (* KF from-end: the index of an element mismatch is counted from the wrong side *)
+      (* KF from-end: the index of an element mismatch is counted from the wrong side (asserted by mismatch_test.go) *)
       (negb (c_from_end c) ||
        (let w1 := map (key_app (c_key c)) (slice (s_start c) (s_end c l1) l1) in
         let w2 := map (key_app (c_key c)) (slice (s_start2 c) (s_end2 c l2) l2) in
@@ -348,14 +348,14 @@ Definition in_domain (c : call) : bool :=
   | FSubseq => true
   | FReplace => bounds2_ok c
   | FFill =>
-      not_nil (c_seq c) && negb (c_end_nil c) && (s_start c <? length l1)%nat &&    (* KF nil, :end nil, :end = length, empty *)
+      not_nil (c_seq c) && negb (c_end_nil c) && (s_start c <? length l1)%nat &&    (* KF nil, :end nil, start / end = length (asserted by fill_test.go) *)
       (match c_end c with Some e => (e <? length l1)%nat | None => true end)
   | FReverse | FNreverse => true
   | FSort | FStableSort => test_strict (c_test c)
-  | FMerge =>
-      test_strict (c_test c)
+  | FMerge => test_strict (c_test c)
   | FUnion | FIntersection => is_list (c_seq c) && is_list (c_seq2 c) && test_equivalence (c_test c)
   | FSetDifference | FSubsetp => is_list (c_seq c) && is_list (c_seq2 c)
+  (* the two-sequence predicate is c_test read as a plain function: TTestNot is not an encoding of a call *)
   | FEvery | FNotany | FNotevery => not_test_not (c_test c)
   | FSome =>
       (* the element-answering predicate (c_flag) is only written for one sequence *)
@@ -363,7 +363,7 @@ Definition in_domain (c : call) : bool :=
   | FMap => true
   | FMapcar => is_list (c_seq c) && ((c_nseq c =? 1)%nat || is_list (c_seq2 c))
   | FReduce =>
-      (negb (s_start c =? s_end c l1)%nat || match c_init c with Some _ => true | None => false end)   (* KF (reduce '+ '()) *)
+      (negb (s_start c =? s_end c l1)%nat || match c_init c with Some _ => true | None => false end)   (* KF (reduce '+ '()) => nil (asserted by reduce_test.go) *)
   | FConcatenate => true
   (* KF the -if-not functions do not exist *)
   | FFindIfNot | FPositionIfNot | FCountIfNot | FRemoveIfNot | FDeleteIfNot | FSubstituteIfNot | FNsubstituteIfNot => false
